@@ -70,7 +70,7 @@ func runC01(c *Ctx) {
 	}
 	c01RefsLeg(c)
 	var cases []c01Case
-	files, _ := filepathGlob("/verif/harness/corpus/C01/*.json")
+	files, _ := filepathGlob(verifRoot + "/harness/corpus/C01/*.json")
 	for _, f := range files {
 		var wrap struct{ Case c01Case `json:"case"` }
 		b, err := osReadFile(f)
